@@ -62,6 +62,23 @@ func runRaceStress(seed int64, goroutines, callsEach int) {
 		cp.WriteString("      core.name:\n        pattern: ^[a-z]+$\n")
 		jobs = append(jobs, job{cp.String(), `[{"@id":"http://ex.org/n/0","@type":["http://a.ml/vocabularies/apiContract#EndPoint"],"http://a.ml/vocabularies/core#name":"Abc"}]`})
 	}
+	// ... and documents whose @context is not inline but a FILE the JSON-LD processor has to load (one file per job, plus one
+	// shared file pulled in through @import): whatever the processor keeps about loaded documents is first touched concurrently
+	if dir, err := os.MkdirTemp("", "acvctx"); err == nil {
+		defer os.RemoveAll(dir)
+		shared := dir + "/shared.jsonld"
+		os.WriteFile(shared, []byte(`{"@context":{"api":"http://a.ml/vocabularies/apiContract#","core":"http://a.ml/vocabularies/core#"}}`), 0644)
+		for k := 0; k < 6; k++ {
+			f := fmt.Sprintf("%s/ctx_%d.jsonld", dir, k)
+			os.WriteFile(f, []byte(fmt.Sprintf(`{"@context":{"api":"http://a.ml/vocabularies/apiContract#","core":"http://a.ml/vocabularies/core#","t%d":"http://ex.org/t%d#"}}`, k, k)), 0644)
+			ctx := `"` + f + `"`
+			if k%2 == 1 {
+				ctx = fmt.Sprintf(`{"@import":"%s","name%d":"core:name"}`, shared, k)
+			}
+			data := fmt.Sprintf(`{"@context":%s,"@id":"http://ex.org/n/%d","@type":"api:EndPoint","core:name":"Abc%d"}`, ctx, k, k)
+			jobs = append(jobs, job{jobs[nWarm+k].profile, data})
+		}
+	}
 	nCold := len(jobs) - nWarm
 	jobs = append(jobs, job{genFail, jobs[0].data}, job{parseFail, jobs[0].data})
 	isCold := func(i int) bool { return i >= nWarm && i < nWarm+nCold }
@@ -132,7 +149,9 @@ func runRaceStress(seed int64, goroutines, callsEach int) {
 					} else {
 						rep, err := pkg.ValidateCompiledWithConfiguration(c, jobs[i].data, false, nil, fixedClock{}, defaultRC())
 						got, want, what = "ok\n"+rep, serial[i], "CompileProfile+ValidateCompiled"
-						_ = err
+						if err != nil {
+							got = "error\n"
+						}
 					}
 				}
 				mu.Lock()
